@@ -276,7 +276,8 @@ impl Aff {
             atom: self.atom,
             a_lo: self.a_lo / s,
             a_hi: self.a_hi / s,
-            b_lo: dn(self.b_lo / s - 1.0),
+            // floor(x / 2^k) = x / 2^k - f with f in [0, 1 - 2^-k] because x is an integer
+            b_lo: dn(self.b_lo / s - (1.0 - 1.0 / s)),
             b_hi: self.b_hi / s,
         }
     }
@@ -731,6 +732,14 @@ impl Val {
             }
             (Val::Slice { base: b1, start: s1, len: l1 }, Val::Slice { base: b2, start: s2, len: l2 }) if b1 == b2 => {
                 Val::Slice { base: b1.clone(), start: s1.widen(s2), len: l1.widen(l2) }
+            }
+            (Val::Opq(Opaque::Xof { pos_hi: h1, .. }), Val::Opq(Opaque::Xof { .. })) => {
+                let j = self.join(new);
+                if let Val::Opq(Opaque::Xof { kind, absorbed, pos_lo, pos_hi, id }) = j {
+                    let ph = if pos_hi > *h1 { i128::MAX } else { pos_hi };
+                    return Val::Opq(Opaque::Xof { kind, absorbed, pos_lo, pos_hi: ph, id });
+                }
+                j
             }
             _ => self.join(new),
         }
